@@ -49,6 +49,10 @@ def run(ctx, chk):
         over = [b["path"] for b in bio.bodies if (b.get("impl") or {}).get("trait") in (ORD, PORD) and re.search(r"^<kmer::Kmer<|^<seq::Seq<", b["path"]) and
                 b["path"].split("::")[-1] in ("lt", "le", "gt", "ge", "max", "min", "clamp")]
         chk.ob("S-ord/override", "Kmer/Seq comparison operators", not over, "overridden: %s" % over)
+        # closed world: no other ordering on sequence types (SeqSlice, SeqArray and references have none today)
+        extra = [b["path"] for b in bio.bodies if (b.get("impl") or {}).get("trait") in (ORD, PORD) and
+                 re.match(r"^&?(seq::slice::SeqSlice<|seq::array::SeqArray<|&seq::Seq<|&kmer::Kmer<)", an._strip_lt((b.get("impl") or {}).get("self_ty") or ""))]
+        chk.ob("S-ord/closed", "orderings on sequence types", not extra, "ordering impl without a row (it must agree with the colexicographic order): %s" % extra, kind="cannot-establish")
         # Dna codes
         dn = cfg.codecs.get("dna::Dna")
         if dn:
